@@ -196,4 +196,59 @@ theorem anonymous_ok (sat : Bitset) (reqs : List (List Nat)) (h : [] ∈ reqs) :
   (authorized_iff sat reqs).mpr ⟨[], h, by simp⟩
 
 #print axioms authorized_iff
+
+/-! ### C03: the required-field check of generated struct decoders is the same arithmetic -/
+/-- `bitset.Build(fields, required)`: bit i is set iff field i is required -/
+def buildMask : List Bool → Nat → Bitset → Bitset
+  | [], _, acc => acc
+  | r :: rs, i, acc => buildMask rs (i + 1) (if r then set acc i else acc)
+
+/-- generated: `for i, mask := range [...]uint8{…} { if result := (requiredBitSet[i] & mask) ^ mask; result != 0 { … } }` -/
+def missingAny : Bitset → Bitset → Bool
+  | _, [] => false
+  | [], m :: ms => ((0 &&& m) ^^^ m != 0) || missingAny [] ms
+  | s :: ss, m :: ms => ((s &&& m) ^^^ m != 0) || missingAny ss ms
+
+theorem xor_ne_zero (s m : UInt8) : ((s &&& m) ^^^ m != 0) = !(s &&& m == m) := by
+  have : ((s &&& m) ^^^ m = 0) ↔ (s &&& m = m) := by
+    constructor
+    · intro h
+      have := congrArg UInt8.toBitVec h
+      simp only [UInt8.toBitVec_xor, UInt8.toBitVec_and] at this
+      apply UInt8.toBitVec_inj.mp
+      simp only [UInt8.toBitVec_and]
+      exact BitVec.xor_eq_zero_iff.mp this
+    · intro h; rw [h]; simp
+  apply Bool.eq_iff_iff.mpr
+  simp only [bne_iff_ne, ne_eq, Bool.not_eq_true', beq_eq_false_iff_ne]
+  exact not_congr this
+
+theorem missingAny_eq (sat mask : Bitset) : missingAny sat mask = !covers sat mask := by
+  induction mask generalizing sat with
+  | nil => simp [missingAny, covers]
+  | cons m ms ih =>
+    cases sat with
+    | nil =>
+      simp only [missingAny, covers, ih, xor_ne_zero]
+      have : ((0 : UInt8) &&& m == m) = (m == 0) := by
+        have h0 : (0 : UInt8) &&& m = 0 := by simp
+        rw [h0]
+        apply Bool.eq_iff_iff.mpr
+        simp only [beq_iff_eq]
+        exact eq_comm
+      rw [this]
+      cases (m == 0) <;> cases covers [] ms <;> rfl
+    | cons s ss =>
+      simp only [missingAny, covers, ih, xor_ne_zero]
+      cases (s &&& m == m) <;> cases covers ss ms <;> rfl
+
+/-- **C03 required mask**: the decoder reports a missing required field exactly when some field whose index is in
+    the required set was not seen — for any number of fields, across byte boundaries. -/
+theorem required_check_iff (seen : Bitset) (requiredIdx : List Nat) :
+    missingAny seen (maskOf requiredIdx) = false ↔ ∀ i ∈ requiredIdx, test seen i = true := by
+  rw [missingAny_eq]
+  simp only [Bool.not_eq_false']
+  exact mask_semantics seen requiredIdx
+
+#print axioms required_check_iff
 end Sec
